@@ -143,6 +143,86 @@ pub fn robot_negative(d: DofChoice) -> BoxedStrategy<RobotSpec> {
         .boxed()
 }
 
+/// Proper arms in which some lengths are exactly zero (a1, a2, b, c1, c3, c4 - never c2, and never a2 and c3 together).
+pub fn robot_zeroed(d: DofChoice) -> BoxedStrategy<RobotSpec> {
+    (prop_oneof![2 => robot_realistic(d), 1 => robot_negative(d)], 1u8..64)
+        .prop_map(|(mut r, mask)| {
+            if mask & 1 != 0 {
+                r.a1 = 0.0;
+            }
+            if mask & 2 != 0 {
+                r.a2 = 0.0;
+            }
+            if mask & 4 != 0 {
+                r.b = 0.0;
+            }
+            if mask & 8 != 0 {
+                r.c1 = 0.0;
+            }
+            if mask & 16 != 0 && r.a2 != 0.0 {
+                r.c3 = 0.0;
+            }
+            if mask & 32 != 0 {
+                r.c4 = 0.0;
+            }
+            r
+        })
+        .boxed()
+}
+
+/// A robot that differs from `r` in exactly one respect (a calibration / configuration variant of the same arm):
+/// the sign of one joint, the offset of one joint, one length, or the declared degrees of freedom.
+pub fn robot_variant(r: &RobotSpec, which: u8, amount: f64, allow_dof: bool) -> RobotSpec {
+    let mut v = *r;
+    let k = ((which / 4) % 6) as usize;
+    match which % 4 {
+        0 => {
+            v.signs[k] = if v.signs[k] == 0 { 1 } else { -v.signs[k] };
+        }
+        1 => v.offsets[k] += if amount == 0.0 { 0.25 } else { amount },
+        2 => {
+            let d = if amount == 0.0 { 0.05 } else { amount * 0.2 };
+            match (which / 4) % 7 {
+                0 => v.a1 += d,
+                1 => v.a2 += d,
+                2 => v.b += d,
+                3 => v.c1 += d,
+                4 => v.c2 += d,
+                5 => v.c3 += d,
+                _ => v.c4 += d,
+            }
+        }
+        _ => {
+            if allow_dof {
+                v.dof = if v.dof == 6 { 5 } else { 6 };
+            } else {
+                v.signs[k] = if v.signs[k] == 0 { 1 } else { -v.signs[k] };
+            }
+        }
+    }
+    v
+}
+
+/// Call-history partner of a robot: none, an unrelated robot, or a one-field variant of the same robot.
+pub fn other_robot(d: DofChoice, allow_dof: bool) -> BoxedStrategy<Option<(Option<RobotSpec>, u8, f64)>> {
+    let _ = allow_dof;
+    prop_oneof![
+        3 => Just(None),
+        1 => robot_sane(d).prop_map(|r| Some((Some(r), 0u8, 0.0))),
+        2 => (any::<u8>(), -1.0..1.0f64).prop_map(|(w, a)| Some((None, w, a))),
+    ]
+    .boxed()
+}
+
+/// Resolve `other_robot` against the robot of the case.
+pub fn resolve_other(r: &RobotSpec, o: Option<(Option<RobotSpec>, u8, f64)>, allow_dof: bool) -> Option<RobotSpec> {
+    match o {
+        None => None,
+        Some((Some(x), _, _)) => Some(x),
+        Some((None, w, a)) => Some(robot_variant(r, w, a, allow_dof)),
+    }
+}
+
 /// Mix of well-formed robots (catalogue + realistic).
 pub fn robot_sane(d: DofChoice) -> BoxedStrategy<RobotSpec> {
     prop_oneof![3 => robot_catalogue(d), 5 => robot_realistic(d)].boxed()
@@ -150,7 +230,7 @@ pub fn robot_sane(d: DofChoice) -> BoxedStrategy<RobotSpec> {
 
 /// Everything.
 pub fn robot_any(d: DofChoice) -> BoxedStrategy<RobotSpec> {
-    prop_oneof![3 => robot_catalogue(d), 5 => robot_realistic(d), 2 => robot_negative(d), 2 => robot_degenerate(d)].boxed()
+    prop_oneof![3 => robot_catalogue(d), 5 => robot_realistic(d), 2 => robot_negative(d), 2 => robot_degenerate(d), 2 => robot_zeroed(d)].boxed()
 }
 
 pub fn robot_class(r: &RobotSpec) -> Vec<&'static str> {
